@@ -689,11 +689,16 @@ fn method_cells(ctx: &Ctx) -> u64 {
         for sess_c in 0..3u8 {
             for req_c in 0..3u8 {
                 for caller in 0..4u8 {
+                  for extra in 0..4u8 {
                     for via_send in [false, true] {
                         n += 1;
                         let mut s = attohttpc::Session::new();
                         if sess_c != 0 {
                             s.allow_compression(sess_c == 1);
+                        }
+                        // other header fields of the caller's play no part in the announcement
+                        if extra == 2 {
+                            s.header("Range", "bytes=0-99");
                         }
                         let mut own: Vec<&str> = Vec::new();
                         if caller == 1 || caller == 3 {
@@ -712,6 +717,12 @@ fn method_cells(ctx: &Ctx) -> u64 {
                         };
                         if req_c != 0 {
                             rb = rb.allow_compression(req_c == 1);
+                        }
+                        if extra == 1 {
+                            rb = rb.header("Range", "bytes=0-99");
+                        }
+                        if extra == 3 {
+                            rb = rb.header("TE", "trailers").header("If-Range", "\"etag\"").header("Cache-Control", "no-transform");
                         }
                         if caller == 2 {
                             rb = rb.header("accept-encoding", "identity");
@@ -749,8 +760,9 @@ fn method_cells(ctx: &Ctx) -> u64 {
                             }
                         };
                         let desc = format!(
-                            "{m} request ({}), session allow_compression {}, request allow_compression {}, caller's own Accept-Encoding values {own:?}: Accept-Encoding on the request is {ae:?}",
+                            "{m} request ({}{}), session allow_compression {}, request allow_compression {}, caller's own Accept-Encoding values {own:?}: Accept-Encoding on the request is {ae:?}",
                             if via_send { "sent" } else { "prepared" },
+                            ["", ", Range on the request", ", Range on the session", ", TE / If-Range / Cache-Control on the request"][extra as usize],
                             ["untouched", "true", "false"][sess_c as usize],
                             ["untouched", "true", "false"][req_c as usize]
                         );
@@ -768,6 +780,7 @@ fn method_cells(ctx: &Ctx) -> u64 {
                             ctx.violation("C16:caller-header-lost", format!("{desc}; compression is off, the caller's own values must reach the request unchanged"), json!({"engine": "c16", "method_cells": true}), n);
                         }
                     }
+                  }
                 }
             }
         }
